@@ -27,6 +27,8 @@ POOLS = {
     "keywords8": ["use", "where", "while", "become", "final", "override"],
     "keywords9": ["priv", "typeof", "unsized", "virtual", "Match", "USE"],
     "digits": ["a1", "a_1", "A1", "a1b"],
+    # literals equal to the identifier the renderer derives for a keyword-named sibling: <parent>_<keyword>
+    "kwsibling": ["item", "type", "item_type"],
     "caseruns": ["HTTPResponse", "httpResponse", "HttpResponse", "VendorRateID"],
     "prefixed": ["ns:a", "a", "x:a"],
     "nonascii": ["д", "Д", "é", "ß", "SS"],
@@ -39,7 +41,7 @@ POOLS = {
     "suffixgap": ["foo", "Foo", "FOO", "foo_3"],
     "attrcase": ["ID", "Id", "item"],
 }
-ATTRS = {"keywords2": ["type", "ref"], "keywords3": ["in", "use"], "keywords4": ["enum", "static"], "keywords5": ["for", "let"],
+ATTRS = {"kwsibling": ["item_type", "type"], "keywords2": ["type", "ref"], "keywords3": ["in", "use"], "keywords4": ["enum", "static"], "keywords5": ["for", "let"],
          "keywords6": ["mod", "pub"], "keywords7": ["struct", "true"], "keywords8": ["where", "while"], "keywords9": ["virtual", "yield"],
          "digits": ["a1", "A1"], "suffixlit": ["foo", "foo_attr"], "suffixgap": ["foo"], "xmlnsish": ["xml:lang", "x:p", "xmlns:n", "xmlnsx:q"], "attrcase": ["id", "Id"], "default": ["p"], "fields": ["text", "type"], "fields2": ["p", "type"], "prefixed": ["xmlns:n", "n:p"]}
 
@@ -192,7 +194,7 @@ def render_pools(rep, pid, tier, pools, relevant, opkinds=("add", "text", "optio
 
 
 def random_trees(rep, pid, tier, relevant, n=None, ops=40, opts="two", extra_opts=0, pool=None, api_trace=False, remove=1,
-                 kinds=None, root_bias=0, pool_all=False, tag="random"):
+                 kinds=None, root_bias=0, pool_all=False, tag="random", mode=None):
     """impl -> spec beyond the bounds: random operation sequences, judged by RenderTrace (and ApiTrace)"""
     n = n or (150 if tier == "quick" else 3000)
     rtrace = os.path.join(c.OUT, "traces", "%s-render-%s.ndjson" % (pid, tag))
@@ -203,6 +205,8 @@ def random_trees(rep, pid, tier, relevant, n=None, ops=40, opts="two", extra_opt
         args += ["--pool", ",".join(pool)]
     if kinds:
         args += ["--kinds", ",".join(kinds)]
+    if mode:
+        args += ["--mode", mode]
     if root_bias:
         args += ["--root-bias", root_bias]
     if pool_all:
